@@ -395,14 +395,32 @@ pub trait RiRefBufImpl: Sized + RiRefImpl {
 	///
 	/// See <https://www.rfc-editor.org/errata/eid4547>
 	fn resolve(&mut self, base_iri: &Self::Ri) {
+		/// Removes the dot segments of the path as specified by RFC 3986
+		/// section 5.2.4: a final `.` or `..` segment leaves a trailing `/`.
+		fn remove_dot_segments<R: RiRefBufImpl>(r: &mut R) {
+			let open = matches!(
+				r.path().last().map(SegmentImpl::as_bytes),
+				Some(b".") | Some(b"..")
+			);
+
+			let mut path = r.path_mut();
+			path.normalize();
+			if open && !path.is_empty() {
+				path.push(<<R::Path as PathImpl>::Segment as SegmentImpl>::EMPTY)
+			} else if path.as_bytes() == b"/./" {
+				// a single empty segment: RFC 3986 writes it `/`.
+				path.clear()
+			}
+		}
+
 		let parts = parse::reference_parts(self.as_bytes(), 0);
 
 		if parts.scheme.is_some() {
-			self.path_mut().normalize();
+			remove_dot_segments(self);
 		} else {
 			self.set_scheme(Some(base_iri.scheme()));
 			if parts.authority.is_some() {
-				self.path_mut().normalize();
+				remove_dot_segments(self);
 			} else if self.path().is_relative() && self.path().is_empty() {
 				self.set_authority(base_iri.authority());
 				self.set_path(base_iri.path());
@@ -411,7 +429,7 @@ pub trait RiRefBufImpl: Sized + RiRefImpl {
 				}
 			} else if self.path().is_absolute() {
 				self.set_authority(base_iri.authority());
-				self.path_mut().normalize();
+				remove_dot_segments(self);
 			} else {
 				self.set_authority(base_iri.authority());
 				let mut path_buffer = Self::RiBuf::from_scheme(base_iri.scheme().to_owned()); // we set the scheme to avoid path disambiguation.
